@@ -25,7 +25,21 @@ ladders -- for the estimator alone and nested in every host that accepts it, wit
 wrapped and array hyper-parameters re-configured between calls.  The snapshot is strict: public
 `get_params(deep=True)` plus the `params` of every nested module, arrays compared bit for bit with dtype and shape,
 scalars with their Python type.  (Identity of the array objects is NOT demanded: the library restores `params` from
-a deep copy after every search -- the mechanism the property names -- so equal bits in a new array are no change.)"""
+a deep copy after every search -- the mechanism the property names -- so equal bits in a new array are no change.)
+
+`_plotting_in_history` repeats it on histories that contain PLOTTING calls: `fit_gif` is a training call (it draws every
+sample through `visualize` -> `plot_cluster_bounds`), and `visualize` / `plot_cluster_bounds` between two `partial_fit`
+batches are part of the history the next batch is judged in.  Two generators: the shared one (harness/artv/plotpure.py:
+every family after a plotting call, then this check's oracle on the continuation) and this file's own for what it does
+not build -- TopoART / DualVigilanceART / CVIART whose hyper-parameters were RE-CONFIGURED after construction
+(`host.set_params`, attribute assignment on the host, the caller re-configuring the base module he still holds through
+`set_params` / assignment, `base_module__rho` through the host), so that the host's own parameter copy and its base
+module's `params` have DIVERGED, modules trained before they are wrapped, re-configuration between two calls -- then
+trained through `fit_gif` (default and too small palette, with a vetoing reset function) or through `partial_fit` / `fit`
+with `visualize` (default colours, the estimator's own `labels_`, short colour lists) and `plot_cluster_bounds` on the
+caller's axes in between.  Oracle: the strict snapshot immediately before every call of the history (training,
+prediction, plotting) equals the one immediately after it.  A call that raises is not judged (the unchanged library
+cannot draw every model and rejects some re-configurations)."""
 from __future__ import annotations
 
 import copy
@@ -48,7 +62,11 @@ RULE = ("cases = (family, hyper-parameters incl. nested modules, stream with lab
         "legal but non-canonical hyper-parameter values (cov_init symmetric only to round-off / asymmetric, float32 / "
         "integer / strided / read-only arrays, numpy scalars, ndarray ladders), alone and nested in every host, strict "
         "bit-for-bit snapshots of get_params(deep=True) and of every nested params dict around every call "
-        "(non-trivial when a training call on a non-canonical configuration returned)")
+        "(non-trivial when a training call on a non-canonical configuration returned); the same on histories with "
+        "plotting calls (fit_gif as the training call; visualize / plot_cluster_bounds between partial_fit batches) on "
+        "every family (shared generator) and on TopoART / DualVigilanceART / CVIART re-configured after construction "
+        "so that host and base module hold different values (non-trivial when the parameter copies had diverged and a "
+        "plotting call or fit_gif returned)")
 
 
 def prepare(ctx):
@@ -180,6 +198,7 @@ def run(ctx):
     _reconfigured(ctx)
     _reentrant(ctx)
     _noncanonical(ctx)
+    _plotting_in_history(ctx)
 
 
 # ---------------------------------------------------------------------------------------------------------------
@@ -1002,3 +1021,356 @@ def _noncanonical(ctx):
             cov.hit(f"non-canonical-history:{host}:{kind}")
         cov.case(("noncanonical", host, kind, str(desc["module"]), str(desc["rows"]), mode, eps, str(desc["history"])),
                  ncalls >= 1 and not canonical)
+
+
+# ---------------------------------------------------------------------------------------------------------------
+# plotting calls inside histories: fit_gif is a training call; visualize / plot_cluster_bounds between two batches
+
+
+_PLOT_HOSTS = ["TopoART", "DualVigilanceART", "CVIART", "TopoART", "DualVigilanceART", "TopoART", "CVIART"]
+_PLOT_BASES = {"TopoART": ["FuzzyART", "EllipsoidART", "HypersphereART", "ART2A", "FuzzyART", "EllipsoidART"],
+               "DualVigilanceART": ["FuzzyART", "EllipsoidART", "HypersphereART", "GaussianART", "QuadraticNeuronART",
+                                    "ART2A", "BayesianART"],
+               "CVIART": ["FuzzyART", "EllipsoidART", "HypersphereART", "GaussianART", "QuadraticNeuronART", "BayesianART"]}
+_PLOT_KINDS = ["visualize:default", "visualize:own-labels", "visualize:own-labels:short-colors", "plot_cluster_bounds",
+               "visualize:labels-copy:short-colors"]
+
+
+def _mpl():
+    try:
+        import matplotlib
+        matplotlib.use("Agg")
+        import matplotlib.pyplot as plt
+        return plt
+    except Exception:   # noqa
+        return None
+
+
+def _other_value(r, host, base, key):
+    """another value of the float hyper-parameter `key` that the base module's own validate_params (and, where the host
+    keeps a copy, the host's) accepts; None when there is none"""
+    hp = host.__dict__.get("params", {})
+    if key == "rho_lower_bound":
+        cur, top = hp.get(key), base.params.get("rho")
+        if not isinstance(cur, float) or not isinstance(top, float) or not math.isfinite(top):
+            return None
+        cands = [(cur + top) / 2.0, cur / 2.0]
+        cands = [float(c) for c in cands if c != cur and 0.0 <= c < top]
+        return r.choice(cands) if cands else None
+    cur = base.params.get(key)
+    if not isinstance(cur, float) or not math.isfinite(cur):
+        return None
+    cur = float(cur)
+    if key == "rho":
+        if "Bayesian" in type(base).__name__:
+            cands = [cur * 2.0, cur / 2.0]
+        else:
+            lo = float(hp.get("rho_lower_bound", 0.0))
+            cands = [(cur + 1.0) / 2.0, (cur + lo) / 2.0]
+            cands = [c for c in cands if c > lo or "rho_lower_bound" not in hp]
+    elif key == "beta":
+        lo = float(hp.get("beta_lower", 0.0))
+        cands = [(cur + 1.0) / 2.0, (cur + lo) / 2.0]
+    elif key == "mu":
+        cands = [(cur + 1.0) / 2.0, cur / 2.0]
+    elif key == "alpha":
+        cands = [cur / 2.0] if cur > 0.0 else [2.0 ** -10]
+    elif key == "r_hat":
+        cands = [cur * 2.0, cur * 1.5]
+    else:
+        return None
+    ok = []
+    for c in cands:
+        if c == cur or not math.isfinite(c):
+            continue
+        try:
+            with quiet():
+                type(base).validate_params(dict(base.params, **{key: c}))
+                if key in hp:
+                    host.validate_params(dict(hp, **{key: c}))
+            ok.append(float(c))
+        except Exception:   # noqa
+            pass
+    return r.choice(ok) if ok else None
+
+
+def _diverged(host, base):
+    """the hyper-parameters of which the host's own copy and its base module's `params` hold different values"""
+    hp = host.__dict__.get("params", {})
+    return sorted(k for k in hp if k in base.params and _leaf(hp[k]) != _leaf(base.params[k]))
+
+
+def _plotting_in_history(ctx):
+    """Oracle (implementation alone): the strict snapshot (get_params(deep=True) + every nested module's params, bit
+    for bit) taken immediately before a call of the history equals the one taken immediately after it returned --
+    fit_gif, fit, partial_fit, predict, and the visualize / plot_cluster_bounds calls made between them."""
+    cov = ctx.cov
+    plt = _mpl()
+    if plt is None:
+        cov.hit("plot-history:matplotlib-missing")
+        return
+    _shared_plot_scenarios(ctx, plt)
+    import shutil
+    import tempfile
+    A = _impl.artlib
+    tmp = tempfile.mkdtemp(prefix="artv-c07-plot-")
+    try:
+        for i in range(ctx.scale(24, 300)):
+            r = gen.rng_for(ctx.seed, "C07-plot-history", i)
+            host = _PLOT_HOSTS[i % len(_PLOT_HOSTS)]
+            kind = _PLOT_BASES[host][(i // len(_PLOT_HOSTS)) % len(_PLOT_BASES[host])]
+            mode = MODES[(i // 3) % 5]
+            eps = r.choice([0.0, 2.0 ** -20, 2.0 ** -10, 0.125])
+            # CVIART cannot be trained by fit_gif at all (its step_fit is not implemented): one try in a while, as a check
+            # that the rejection is still what happens
+            shape = "fit_gif" if (i % 5 in (0, 3) and (host != "CVIART" or r.random() < 0.2)) else "plots-between-training-calls"
+            n = r.randint(3, 5) if shape == "fit_gif" else r.randint(4, 7)
+            spec = specs.elem_spec(r, kind, 2)
+            if host == "DualVigilanceART" and kind != "BayesianART" and spec.get("rho") == 0.0:
+                spec["rho"] = 0.5
+            if host == "TopoART" and spec.get("beta") == 1.0 and r.random() < 0.5:
+                spec["beta"] = 0.75               # room above and below for a re-configured learning rate
+            X = specs.elem_data(r, kind, n, 2)
+            desc = {"host": host, "module": spec, "rows": {"X": X.tolist()}, "mode": mode, "eps": eps, "shape": shape,
+                    "history": []}
+            try:
+                base = make(spec)
+                pre = None
+                if r.random() < 0.15:
+                    pre = r.randint(1, max(1, n // 2))
+                    with quiet():
+                        base.partial_fit(X[:pre])
+                    desc["module_trained_before_being_wrapped"] = {"rows_slice": [0, pre]}
+                with quiet():
+                    if host == "TopoART":
+                        args = {"beta_lower": r.choice([b for b in [0.0, 0.25, 0.5] if b <= float(base.params["beta"])]),
+                                "tau": r.randint(2, 9), "phi": 1}
+                        est = A.TopoART(base, args["beta_lower"], args["tau"], args["phi"])
+                    elif host == "DualVigilanceART":
+                        rho = float(base.params["rho"])
+                        args = {"rho_lower_bound": float(r.choice([rho / 2.0, rho / 4.0, 0.0]))}
+                        est = A.DualVigilanceART(base, args["rho_lower_bound"])
+                    else:
+                        args = {"validity": r.choice([1, 2, 3])}
+                        est = A.CVIART(base, args["validity"])
+                desc["host_args"] = args
+            except Exception as e:
+                cov.hit(f"plot-history:construction-rejected:{host}:{kind}:{exc_enum(e)}")
+                continue
+            if pre is not None:
+                cov.hit("plot-history:module-trained-before-being-wrapped")
+            st = {"failed": False, "diverged-when-drawn": False, "drawn": 0, "reconfigured": 0}
+
+            def reconfigure(force=False):
+                """one public re-configuration; afterwards host and base module may hold different values"""
+                own = [k for k in ("rho", "rho", "rho", "mu", "mu", "beta", "alpha", "r_hat") if isinstance(base.params.get(k), float)]
+                if host == "DualVigilanceART":
+                    how = r.choice(["base.attribute", "base.set_params", "host.set_params(base_module__)", "host.set_params",
+                                    "host.attribute"])
+                    key = "rho_lower_bound" if how in ("host.set_params", "host.attribute") else r.choice(own)
+                else:
+                    how = r.choice(["host.set_params", "host.set_params", "host.attribute", "base.attribute", "base.set_params"])
+                    key = r.choice(own)
+                v = _other_value(r, est, base, key)
+                if v is None:
+                    cov.hit(f"plot-history:no-other-valid-value:{key}")
+                    return
+                try:
+                    with quiet():
+                        if how == "host.set_params":
+                            est.set_params(**{key: v})
+                        elif how == "host.set_params(base_module__)":
+                            est.set_params(**{"base_module__" + key: v})
+                        elif how == "host.attribute":
+                            setattr(est, key, v)
+                        elif how == "base.attribute":
+                            setattr(base, key, v)
+                        else:
+                            base.set_params(**{key: v})
+                except Exception as e:
+                    cov.hit(f"plot-history:re-configuration-rejected:{host}:{how}:{exc_enum(e)}")
+                    return
+                holder = est if how in ("host.set_params", "host.attribute") else base
+                if _leaf(holder.__dict__["params"].get(key)) != _leaf(v):
+                    cov.hit(f"plot-history:re-configuration-not-routed-into-params:{host}:{how}")
+                    return
+                st["reconfigured"] += 1
+                desc["history"].append({"reconfigure": how, "key": key, "value": v, "value_hex": float(v).hex(),
+                                        "copies_that_differ_afterwards": _diverged(est, base)})
+                cov.hit(f"plot-history:re-configured:{how}:{key}")
+
+            # a vetoing reset function (TopoART / DualVigilanceART take one in fit_gif and partial_fit alike): match
+            # tracking really moves the base module's vigilance while frames are drawn
+            kw = dict(match_tracking=mode, epsilon=eps)
+            if host != "CVIART" and r.random() < 0.5:
+                vt = gen.veto_table(r, n, n + 2)
+                desc["veto"] = vt
+                stt = {"i": -1}
+                o_step = est.step_fit
+
+                def step(x, *a, _o=o_step, _s=stt, **kw_):
+                    _s["i"] += 1
+                    return _o(x, *a, **kw_)
+                object.__setattr__(est, "step_fit", step)
+
+                def reset(i_, w_, c_, params=None, cache=None, _s=stt, _vt=vt, _m=n + 2):
+                    return not _vt[_s["i"] % len(_vt)][int(c_) % _m]
+                kw["match_reset_func"] = reset
+                cov.hit("plot-history:vetoing-reset-function")
+
+            def checked(op, call, entry, plotting=False):
+                """one call of the history between two strict snapshots; False when it raised (not judged)"""
+                desc["history"].append(entry)
+                div = _diverged(est, base)
+                sb, _, refs_b = _strict(est)
+                try:
+                    with quiet():
+                        call()
+                except Exception as e:
+                    cov.hit(f"plot-history:{op}-raised:{host}:{kind}:{exc_enum(e)}")
+                    entry["raised"] = exc_enum(e)
+                    return False
+                finally:
+                    plt.close("all")
+                sa, _, refs_a = _strict(est)
+                diffs = _strict_diff(sb, sa)
+                if diffs:
+                    key, leaf, cat, _t = diffs[0]
+                    ctx.issue("violation", f"{host}[{kind}].{op}:{leaf}:{cat}-changed:plotting-call-in-history",
+                              f"{op} changed hyper-parameters (history with plotting calls; parameter copies of host and base "
+                              f"module that differed when it started: {div or 'none'}; mode {mode}, eps {eps}): "
+                              + "; ".join(t[3] for t in diffs[:6]),
+                              dict(desc, failing_call=entry, changed=[{"entry": t[0], "category": t[2]} for t in diffs]))
+                    st["failed"] = True
+                    return True
+                cov.hit(f"plot-history:call-checked:{op}")
+                if plotting:
+                    st["drawn"] += 1
+                    if div:
+                        st["diverged-when-drawn"] = True
+                        cov.hit(f"plot-history:drawn-while-parameter-copies-differ:{host}:{op}")
+                    elif st["reconfigured"]:
+                        cov.hit(f"plot-history:drawn-after-re-configuration:{host}:{op}")
+                return True
+
+            def gif(tag):
+                nce = r.choice([20, 20, 20, 1])
+                extra = r.choice([{}, {}, {"linewidth": 2}, {"marker_size": 5}])
+                fn = f"{tmp}/h{i}{tag}.gif"
+                return checked("fit_gif", lambda: est.fit_gif(X, filename=fn, n_cluster_estimate=nce, fps=50, **kw, **extra),
+                               {"call": "fit_gif", "rows_slice": [0, n], "n_cluster_estimate": nce, **extra}, plotting=True)
+
+            def draw(j):
+                plot = r.choice(_PLOT_KINDS)
+                entry = {"call": plot, "rows_slice": [0, j]}
+
+                def call():
+                    labels = est.labels_ if "own-labels" in plot else np.array(est.labels_)
+                    ncat = int(np.max(labels)) + 1 if len(labels) else 1
+                    fig, ax = plt.subplots()
+                    if plot == "plot_cluster_bounds":
+                        est.plot_cluster_bounds(ax, [(0.1 * (k % 10), 0.5, 0.5, 1.0) for k in range(max(ncat, 1) + 12)])
+                    elif plot.endswith("short-colors"):
+                        est.visualize(X[:len(labels)], labels, ax=ax, colors=["r", "g"][: max(1, min(2, ncat - 1))])
+                    else:
+                        est.visualize(X[:len(labels)], labels, ax=ax)
+                return checked(plot.split(":")[0], call, entry, plotting=True)
+
+            def train(a, b):
+                if host == "CVIART":
+                    kw_ = {k_: v_ for k_, v_ in kw.items()}
+                    return checked("fit", lambda: est.fit(X[:b], **kw_), {"call": "fit", "rows_slice": [0, b]})
+                op = "partial_fit" if r.random() < 0.8 or a > 0 else "fit"
+                return checked(op, lambda: getattr(est, op)(X[a:b], **kw), {"call": op, "rows_slice": [a, b]})
+
+            if shape == "fit_gif":
+                for _ in range(r.choice([1, 1, 2])):
+                    reconfigure()
+                ok = gif("a")
+                if ok and not st["failed"] and r.random() < 0.5:
+                    reconfigure()
+                    if host != "CVIART" and r.random() < 0.7:
+                        k = r.randint(1, n)
+                        ok = checked("partial_fit", lambda: est.partial_fit(X[:k], **kw), {"call": "partial_fit", "rows_slice": [0, k]})
+                    else:
+                        ok = gif("b")
+                if ok and not st["failed"] and r.random() < 0.5:
+                    checked("predict", lambda: est.predict(X), {"call": "predict", "rows_slice": [0, n]})
+            else:
+                start = pre or 0
+                parts = gen.compositions(r, n - start)
+                if len(parts) == 1 and n - start >= 2:
+                    parts = [(n - start) - (n - start) // 2, (n - start) // 2]
+                if r.random() < 0.7:
+                    reconfigure()
+                j = start
+                for ci, p in enumerate(parts):
+                    if ci > 0 and (r.random() < 0.5 or not st["reconfigured"]):
+                        reconfigure()
+                    if not train(j, j + p) or st["failed"]:
+                        break
+                    j += p
+                    if not st["reconfigured"]:
+                        reconfigure()
+                    draw(j)
+                    if st["failed"]:
+                        break
+                    if r.random() < 0.3:
+                        checked("predict", lambda: est.predict(X[:j]), {"call": "predict", "rows_slice": [0, j]})
+                        if st["failed"]:
+                            break
+            if st["drawn"] and not st["failed"]:
+                cov.hit(f"plot-history:{shape}:{host}:{kind}")
+            cov.case(("plot-history", host, kind, str(spec), str(desc["rows"]), mode, eps, str(desc["history"])),
+                     st["drawn"] > 0 and st["diverged-when-drawn"])
+    finally:
+        plt.close("all")
+        shutil.rmtree(tmp, ignore_errors=True)
+
+
+def _shared_plot_scenarios(ctx, plt):
+    """the shared generator: every family after a plotting call inside a history.  The plotting call itself must have
+    left the parameter tree as it was (for fit_gif -- a training call on a freshly constructed estimator -- as the
+    constructor left it), and the training / prediction calls that follow are judged between strict snapshots."""
+    from .. import plotpure
+    cov = ctx.cov
+    for sc in plotpure.scenarios(ctx, "C07", quick=12, thorough=160):
+        name = sc.fam.name
+        op = sc.plot.split(":")[0]
+        desc = dict(sc.desc, trained_by=sc.trained_by, drawing_raised=sc.raised)
+        try:
+            if op == "fit_gif":
+                if sc.raised is not None:
+                    cov.hit("plot-history:shared:fit_gif-stopped-in-a-frame")    # not a completed training call
+                    continue
+                before, after = params_tree(sc.fam.make()), params_tree(sc.est)
+            else:
+                before, after = sc.before["params"], sc.after["params"]
+            if not eq_snap(before, after):
+                ctx.issue("violation", f"{name}.{op}:params-changed:plotting-call-in-history",
+                          f"{sc.plot} (after {sc.trained_by}) changed hyper-parameters: before {before} after {after}", desc)
+                continue
+            cov.hit(f"plot-history:shared:call-checked:{op}")
+            k = 1 + (len(sc.rows) > 2)
+            sl = sc.rows.sl(0, k)
+            sb, _, refs_b = _strict(sc.est)
+            cont = "partial_fit" if sc.fam.has_pfit else "fit"
+            (sc.fam.pfit if sc.fam.has_pfit else sc.fam.fit)(sc.est, sl)
+            sa, _, refs_a = _strict(sc.est)
+            diffs = _strict_diff(sb, sa)
+            if not diffs and sc.fam.has_predict:
+                cont = "predict"
+                sc.fam.predict(sc.est, sl)
+                sa, _, refs_a = _strict(sc.est)
+                diffs = _strict_diff(sb, sa)
+            if diffs:
+                ctx.issue("violation", f"{name}.{cont}:{diffs[0][1]}:{diffs[0][2]}-changed:after-plotting-call",
+                          f"{cont} after {sc.trained_by} then {sc.plot} changed hyper-parameters: " + "; ".join(t[3] for t in diffs[:6]),
+                          dict(desc, then={"call": cont, "rows_slice": [0, k]}))
+                continue
+            cov.hit("plot-history:shared:continuation-checked")
+        except Exception as e:
+            cov.hit(f"plot-history:shared:continuation-raised:{name}:{exc_enum(e)}")
+        finally:
+            plt.close("all")
+        cov.case(("plot-shared", name, str(sc.fam.spec), str(sc.desc["rows"]), sc.plot, sc.trained_by), sc.raised is None)
